@@ -94,14 +94,17 @@ class P(ServeProp):
                 t.ents.append(("D", "outer/root/dir")); t.ents.append(("F", "outer/root/dir/index.html", data)); tgt = rnd.choice(["/dir/", "/dir"])
             else:
                 tgt = "/" + self.FILE
-            out.append(gs.serve_case(rnd, kind=kind, tree=t, target=tgt, method="GET",
-                                     headers=["Range: " + val], cors="all"))
+            # the header name in any letter case; a second Range header (the first one counts); HEAD as well as GET
+            nm = rnd.choice(["Range"] * 6 + ["range", "RANGE", "rAnGe"])
+            hs = [nm + ": " + val]
+            if rnd.random() < 0.08: hs.append(rnd.choice(["Range", "range"]) + ": bytes=" + spec())
+            out.append(gs.serve_case(rnd, kind=kind, tree=t, target=tgt, method="GET", headers=hs, cors="all"))
         return out
 
     def _case(self, line):
         pc = gs.parse_case(line)
         data = [e[2] for e in pc["ents"] if e[1].endswith("/" + self.FILE)][0]
-        m = re.search(rb"\r\nRange: ([^\r\n]*)\r\n", pc["req"])
+        m = re.search(rb"\r\n[Rr][Aa][Nn][Gg][Ee]: ([^\r\n]*)\r\n", pc["req"])        # the first Range header, in any letter case
         return data, m.group(1).decode("utf-8", "replace")
 
     def judge(self, line, out):
